@@ -135,7 +135,11 @@ ResultTextOK(e, a, sl) ==
 
 \* the clause: a stated range contains all accepted values of some argument and excludes its rejected value
 RangeTextOK(e, a) ==
-  IF e.op = "dt_set" /\ SetterLocal(e, a).ok
+  IF e.op = "dt_set" /\ ~LocalOf(InstOf(a), a.off).ok
+  THEN \* the receiver's own local reading is outside the range: that reading is the quantity out of range
+       (LET sr == StatedRange(e.msg) IN
+        ~sr.has \/ (~Within(NanosOf(a.dn, a.sod + a.off, a.ns), sr) /\ HullWithin(InstantHull, sr)))
+  ELSE IF e.op = "dt_set" /\ SetterLocal(e, a).ok
   THEN ResultTextOK(e, a, SetterLocal(e, a))
   ELSE IF e.op \in {"dt_set", "date_set"} /\ e.f \in {"year", "month", "day"}
   THEN RangeTextOK0(AsYmdCall(e, a), a)
